@@ -87,6 +87,34 @@ func LoadV1(scripts map[string]string, call map[string]plrt.FuncCall, check map[
 	return
 }
 
+// LoadV1Own does what engine.ParseScript does, except that every script gets the function table table(name) of its
+// own: parse, Check, then the exported linker over the whole set.
+func LoadV1Own(scripts map[string]string, table func(name string) map[string]plrt.FuncCall, check map[string]plrt.FuncCheck) (ok map[string]*plrt.Script, errs map[string]error, crash *Crash) {
+	if DisturbEvery > 0 && parseCalls.Add(1)%DisturbEvery == 0 {
+		DisturbParse()
+	}
+	defer catch(&crash)
+	ok, errs = map[string]*plrt.Script{}, map[string]error{}
+	for name, content := range scripts {
+		stmts, err := parser.ParsePipeline(name, content)
+		if err != nil {
+			errs[name] = err
+			continue
+		}
+		s := &plrt.Script{FuncCall: table(name), Name: name, Content: content, Ast: stmts}
+		if err := s.Check(check); err != nil {
+			errs[name] = err
+			continue
+		}
+		ok[name] = s
+	}
+	ok2, errs2 := engine.EngineCallRefLinkAndCheck(ok, errs)
+	for k, v := range errs2 {
+		errs[k] = v
+	}
+	return ok2, errs, nil
+}
+
 // Load1 loads a single v1 script named name.
 func Load1(name, src string, call map[string]plrt.FuncCall, check map[string]plrt.FuncCheck) (*plrt.Script, error, *Crash) {
 	ok, errs, crash := LoadV1(map[string]string{name: src}, call, check)
